@@ -2,6 +2,5 @@ SPECIFICATION Spec
 CONSTANTS MaxT = 3 MaxS = 3 RewardVals = {0, 1} Policies = {"munkres", "greedy", "random", "allvisible"}
 INVARIANT NonEmpty
 INVARIANT DecisionFeasible
-INVARIANT RelabelEquivariant
 INVARIANT MunkresOptimal
 INVARIANT GreedyOptimal
